@@ -720,7 +720,7 @@ def check_C13(ctx):
     so = tlc(ctx, "mc/MC_SetMeta.cfg", "mc/MC_SetMeta.tla", workers=4)["out"]
     ss = hv(ctx, "replay-setmeta", prop="C13", **{"in": so})
     ctx.traces += ss.get("cases", 0)
-    # the HpoSet as an OBJECT: every history of <= 2 (3) in-place / copying operations from every initial subset of four 7-term worlds
+    # the HpoSet as an OBJECT: every history of <= 2 (3) in-place / copying operations from every initial subset of four 7-term worlds and from 8 large / deep member sets of a 44-term world (a chain of 40 terms: beyond the inline capacity of the id groups)
     # (replacement chains in both id directions, replacement colliding with a member, obsolete terms, a modifier below a phenotype term);
     # after every step every observer must return the pure function of the current members (stale caches, feedback inside in-place loops)
     from concurrent.futures import ThreadPoolExecutor
@@ -728,7 +728,7 @@ def check_C13(ctx):
         cfg = cfgfile(ctx, f"MC_SetMachine{v}", "mc/MC_SetMachine.tla", open(os.path.join(SPEC, "mc", f"MC_SetMachine{v}.cfg")).read().replace("MaxOps = 2", "MaxOps = %d" % (2 if ctx.quick else 3)))
         return tlc(ctx, cfg, "mc/MC_SetMachine.tla", workers=3, timeout=3000)["out"]
     with ThreadPoolExecutor(max_workers=4) as ex:
-        mouts = list(ex.map(one, (1, 2, 3, 4)))
+        mouts = list(ex.map(one, (1, 2, 3, 4, 5)))
     mo = concat(ctx, mouts, "c13-machine-lines.txt")
     wf = os.path.join(ctx.scratch, "c13-worlds.txt")       # the few world lines, read by every shard
     with open(mo, errors="replace") as fh, open(wf, "w") as w:
